@@ -517,29 +517,34 @@ def main(tier):
                     k = lit_int(s[3])
                     lits.append(k)
         plits = {"n": [k for k in lits if k is not None]} if lits and all(k is not None for k in lits) else {}
-        # loops in every reachable function of this evaluator
-        for g in F.fns:
-            if g.evaluator != ev or g.path not in reach or not g.thir or g.derived:
+        # loops in every reachable function of this evaluator, and (once, with the first evaluator's model) in every
+        # reachable function that belongs to no evaluator (utils helpers shared by the evaluators)
+        shared = [g for g in F.fns if g.evaluator is None and g.path in reach and g.thir and not g.derived and g.kind != "Closure"] if ev == sorted(models)[0] else []
+        counts["shared_fns"] += len(shared)
+        for g in [g for g in F.fns if g.evaluator == ev] + shared:
+            if g.path not in reach or not g.thir or g.derived:
                 continue
             if g.kind == "Closure":
                 continue
+            in_ev = (lambda c, ev=ev: c.evaluator == ev) if g.evaluator == ev else (lambda c: True)
             is_eval = m.tb.eval_fn() is not None and g.path == m.tb.eval_fn().path
             t = m.tb.fn_term(g, inline_pure=True, eval_fn=(m.tb.eval_names() if is_eval else None))
             if "::tokenizer::" in g.key:
                 t = T.alpha(T.normalise(t))      # rewrites keyed on the shortened names (next_if loops) apply now
             info = {"MC": MC, "param_literals": plits if g.key.endswith("function_static_arguments") else {}}
             if "::parser::" not in g.key and "::tokenizer::" not in g.key and not is_eval:
-                def callsite_bound(pname, g=g, m=m, ev=ev, MC=MC):
+                def callsite_bound(pname, g=g, m=m, ev=ev, MC=MC, in_ev=in_ev):
                     names = [nm for (_, nm, _) in T.param_ids(g)]
                     if pname not in names:
                         return None
                     idx = names.index(pname)
                     found = []
                     for c in F.fns:
-                        if c.evaluator != ev or c.path not in reach or not c.thir or c.derived or c.kind == "Closure" or c is g:
+                        if not in_ev(c) or c.path not in reach or not c.thir or c.derived or c.kind == "Closure" or c is g:
                             continue
-                        ce = m.tb.eval_fn() is not None and c.path == m.tb.eval_fn().path
-                        ct = m.tb.fn_term(c, inline_pure=True, eval_fn=(m.tb.eval_names() if ce else None))
+                        mc_ = models.get(c.evaluator, m)
+                        ce = mc_.tb.eval_fn() is not None and c.path == mc_.tb.eval_fn().path
+                        ct = mc_.tb.fn_term(c, inline_pure=True, eval_fn=(mc_.tb.eval_names() if ce else None))
 
                         def v(node, anc):
                             if node and node[0] == "call" and isinstance(node[1], str) and len(node) > 2 + idx and m.tb.resolve_local(node[1]) is g:
